@@ -798,6 +798,27 @@ func c13LogRecords(log []byte) []c13Rec {
 	return out
 }
 
+// c13RecordReadable: does the real reader return this record from the complete log?
+func c13RecordReadable(dir string, log []byte, r c13Rec) bool {
+	p := filepath.Join(dir, "probe-linked-log")
+	if err := os.WriteFile(p, log, 0o644); err != nil {
+		panic(err)
+	}
+	defer os.Remove(p)
+	ll, err := linkedlog.NewLinkedLog(p)
+	if err != nil {
+		return false
+	}
+	defer ll.Close()
+	ok := zz.Guard(func() string {
+		if _, _, err := ll.ReadWithSize(uint64(r.off), uint64(r.size)); err != nil {
+			return "err"
+		}
+		return "ok"
+	})
+	return ok == "ok"
+}
+
 func c13UvarintLen(v uint64) int {
 	return binary.PutUvarint(make([]byte, binary.MaxVarintLen64), v)
 }
@@ -905,12 +926,15 @@ func (g *c13Gen) epochCase(name string, o genOpts, maxKeys, exhaustLimit, nRando
 			panic("fixture: linked-log record does not decompress: " + err.Error())
 		}
 		g.do("zstd " + zz.Hex(r.comp) + " " + zz.Hex(raw))
-		if c13UvarintLen(uint64(r.size)) != r.w {
-			// the pinned ReadWithSize derives the prefix width from the total size (C06 finding): leave such records
-			// to C06, here they would only blur the truncation classes
+		if c13UvarintLen(uint64(r.size)) != r.w && !c13RecordReadable(in.dir, glog, r) {
+			// a tree without the C06 repair derives the prefix width from the total size and cannot read this record
+			// even from the complete file: leave it to C06, here it would only blur the truncation classes
 			ambiguous = true
-			in.s.Count("linkedlog-records-skipped-prefix-width-ambiguous")
+			in.s.Count("linkedlog-records-skipped-unreadable-in-complete-file")
 			continue
+		}
+		if c13UvarintLen(uint64(r.size)) != r.w {
+			in.s.Count("linkedlog-records-with-wider-total-than-prefix")
 		}
 		recKeys = append(recKeys, []string{fmt.Sprint(r.off), fmt.Sprint(r.size)})
 		recBounds = append(recBounds, r.off, r.off+r.size)
@@ -975,7 +999,7 @@ func (g *c13Gen) epochCase(name string, o genOpts, maxKeys, exhaustLimit, nRando
 			}
 		}
 	} else {
-		in.s.Count("gsfa-directory-skipped-prefix-width-ambiguous")
+		in.s.Count("gsfa-directory-skipped-unreadable-record")
 	}
 
 	// CAR: every archived object through Epoch.GetNodeByCid (local file and ReaderAt); section boundaries come from
